@@ -1102,6 +1102,7 @@ theorem afterDest_accepted (dec : List Char → List Char) (src : List Char) (p 
     (hst : inlineAfterDest dec src p max res = .ok (href, title, p4)) : href = some u := by
   unfold inlineAfterDest at hst
   simp only [hacc] at hst
+  unfold inlineTitlePart at hst
   split at hst
   · cases hst
   · split at hst
@@ -1128,7 +1129,9 @@ theorem afterDest_rejected (dec : List Char → List Char) (hdec : DecOk dec) (s
     · exact ⟨c, r' ++ suf, by simpa using hch, hw, hp, Or.inr ⟨r', hr⟩⟩
   obtain ⟨c0, rest, rfl, hw, hp, hform⟩ := hc0
   unfold inlineAfterDest at hst
-  simp only [hrej, hs, skipWs_nonws c0 rest p hw] at hst
+  simp only [hrej] at hst
+  unfold inlineTitlePart at hst
+  simp only [hs, skipWs_nonws c0 rest p hw] at hst
   cases ht : parseLinkTitle src p max with
   | error e => simp [ht] at hst
   | ok topt =>
@@ -1199,6 +1202,115 @@ theorem rejected_stays_literal (dec : List Char → List Char) (hdec : DecOk dec
                 exact (afterDest_rejected dec hdec src p1 max res hd hacc href title p4 hst r hfin).elim
             · cases h
     · cases h
+
+/-! ## the inline branch never panics on a valid window -/
+
+/-- `p` is a position from which `src[p..max]` can be taken -/
+def InWin (src : List Char) (max p : Nat) : Prop := ∃ t, slice src p max = .ok t
+
+theorem slice_drop (src pre suf : List Char) (a max : Nat) (h : slice src a max = .ok (pre ++ suf)) :
+    slice src (a + byteLen pre) max = .ok suf := by
+  obtain ⟨p, q, rfl, ha, hb⟩ := (slice_ok_iff _ _ _ _).1 h
+  exact (slice_ok_iff _ _ _ _).2
+    ⟨p ++ pre, q, by simp, by simp [byteLen_append, ha], by simp [byteLen_append] at hb; omega⟩
+
+theorem isWs_clen (c : Char) (h : isWs c = true) : clen c = 1 := by
+  simp only [isWs, Bool.or_eq_true, beq_iff_eq] at h
+  rcases h with (rfl | rfl) | rfl <;> decide
+
+theorem skipWs_spec (cs : List Char) (p : Nat) :
+    ∃ pre suf, cs = pre ++ suf ∧ skipWs cs p = p + byteLen pre := by
+  induction cs generalizing p with
+  | nil => exact ⟨[], [], rfl, by simp [skipWs, byteLen]⟩
+  | cons c cs ih =>
+    cases hw : isWs c with
+    | false => exact ⟨[], c :: cs, rfl, by simp [skipWs, hw, byteLen]⟩
+    | true =>
+      obtain ⟨pre, suf, rfl, hp⟩ := ih (p + 1)
+      exact ⟨c :: pre, suf, rfl, by simp [skipWs, hw, hp, byteLen, isWs_clen c hw]; omega⟩
+
+theorem inwin_skipWs (src cs : List Char) (max p : Nat) (h : slice src p max = .ok cs) :
+    InWin src max (skipWs cs p) := by
+  obtain ⟨pre, suf, rfl, hp⟩ := skipWs_spec cs p
+  exact ⟨suf, hp ▸ slice_drop src pre suf p max h⟩
+
+theorem inwin_dest (src : List Char) (p max : Nat) (res : Frag)
+    (h : parseLinkDestination src p max = .ok (some res)) : InWin src max res.pos := by
+  obtain ⟨_, chars, hs, hc⟩ := dest_spec src p max res h
+  rcases hc with ⟨suf, rfl, hp, _, _⟩ | ⟨suf, rfl, _, hp, _, _, _⟩
+  · refine ⟨suf, ?_⟩
+    have := slice_drop src ('<' :: res.raw ++ ['>']) suf p max (by simpa using hs)
+    rw [hp]
+    simpa [byteLen, byteLen_append, clen_lt, clen_gt, Nat.add_assoc, Nat.add_comm 1] using this
+  · exact ⟨suf, hp ▸ slice_drop src res.raw suf p max hs⟩
+
+theorem inwin_title (src : List Char) (p max : Nat) (t : Frag)
+    (h : parseLinkTitle src p max = .ok (some t)) : InWin src max t.pos := by
+  obtain ⟨o, m, suf, hm, hs, hp, _⟩ := title_delims src p max t h
+  have hc := titleMarker_clen o m hm
+  refine ⟨suf, ?_⟩
+  have := slice_drop src (o :: t.raw ++ [m]) suf p max (by simpa using hs)
+  rw [hp]
+  simpa [byteLen, byteLen_append, hc.1, hc.2, Nat.add_assoc, Nat.add_comm 1] using this
+
+theorem titlePart_total (dec : List Char → List Char) (src : List Char) (max : Nat)
+    (href : Option (List Nat)) (p : Nat) (hp : InWin src max p) :
+    ∃ title p4, inlineTitlePart dec src max href p = .ok (href, title, p4) ∧ InWin src max p4 := by
+  obtain ⟨chars, hs⟩ := hp
+  unfold inlineTitlePart
+  simp only [hs]
+  have hw := inwin_skipWs src chars max p hs
+  generalize skipWs chars p = p3 at hw ⊢
+  obtain ⟨c3, hs3⟩ := hw
+  obtain ⟨tr, ht⟩ := title_total src c3 p3 max hs3
+  simp only [ht]
+  cases tr with
+  | none => exact ⟨_, _, rfl, c3, hs3⟩
+  | some t =>
+    obtain ⟨c4, hs4⟩ := inwin_title src p3 max t ht
+    simp only [hs4]
+    exact ⟨_, _, rfl, inwin_skipWs src c4 max t.pos hs4⟩
+
+theorem afterDest_total (dec : List Char → List Char) (src : List Char) (p max : Nat) (res : Frag)
+    (hp : InWin src max p) (hd : parseLinkDestination src p max = .ok (some res)) :
+    ∃ href title p4, inlineAfterDest dec src p max res = .ok (href, title, p4) ∧
+      InWin src max p4 := by
+  unfold inlineAfterDest
+  split
+  · exact ⟨_, titlePart_total dec src max _ res.pos (inwin_dest src p max res hd)⟩
+  · exact ⟨_, titlePart_total dec src max _ p hp⟩
+
+/-- **the inline branch of `parse_link` never panics**: if the first slicing `src[pos..max]` is in
+    range (which the caller guarantees), so is every later one. -/
+theorem tail_total (dec : List Char → List Char) (src chars : List Char) (pos max : Nat)
+    (h : slice src pos max = .ok chars) : ∃ r, parseInlineTail dec src pos max = .ok r := by
+  unfold parseInlineTail
+  simp only [h]
+  split
+  · rename_i rest
+    have hrest : slice src (pos + 1) max = .ok rest := by
+      have := slice_drop src ['('] rest pos max (by simpa using h)
+      simpa [byteLen, clen_lp] using this
+    have hw := inwin_skipWs src rest max (pos + 1) hrest
+    generalize skipWs rest (pos + 1) = p1 at hw ⊢
+    obtain ⟨c1, hs1⟩ := hw
+    obtain ⟨dr, hd⟩ := dest_total src c1 p1 max hs1
+    simp only [hd]
+    cases dr with
+    | none =>
+      simp only [hs1]
+      split
+      · rename_i heq; cases heq
+      · exact ⟨_, rfl⟩
+      · exact ⟨_, rfl⟩
+    | some res =>
+      obtain ⟨href, title, p4, hst, c4, hs4⟩ := afterDest_total dec src p1 max res ⟨c1, hs1⟩ hd
+      simp only [hst, hs4]
+      split
+      · rename_i heq; cases heq
+      · exact ⟨_, rfl⟩
+      · exact ⟨_, rfl⟩
+  · exact ⟨_, rfl⟩
 
 /-! ### the parsers on concrete text (non-vacuity of the theorems above) -/
 
